@@ -37,6 +37,8 @@ HOW TO RUN THINGS
   - Full existing test suite against your worktree (takes roughly 4-7 minutes; some network-dependent tests fail even on the pristine tree - that is expected; the helper compares against the recorded list of 2917 tests that pass on the pristine tree):
         /tmp/wt/tools/baseline_check.py {wt}
     It prints `missing=0` and exits 0 when every test of the pristine-pass list still passes. Do NOT use pytest-xdist (-n): it produces spurious failures here. You can first run a relevant subset quickly, e.g. `cd {wt} && PYTHONPATH={wt}/src /venv/bin/python -m pytest -q -p no:cacheprovider tests/test_taskgroups.py -x -q`, but the final verdict for each change must come from the full helper run with only that change applied.
+  - The helper is sensitive to machine load: if it reports a handful of missing tests (typically tests/test_sockets.py TestTCPStream ...ipv4, test_keyboard_interrupt_does_not_resume_test or a thread-pool test) that have nothing to do with your change, re-run exactly those tests alone (`cd {wt} && PYTHONPATH={wt}/src /venv/bin/python -m pytest -q -p no:cacheprovider <test ids>`); if they pass alone, count them as passing.
+  - Never use `git stash` (the stash is shared between all worktrees of this repository); use `git diff > file`, `git checkout -- .` and `git apply file` instead.
   - Do not edit anything under {wt}/tests.
   - Work on one change at a time: apply, test, save `git -C {wt} diff > {out}/A/patch.diff`, then `git -C {wt} checkout -- .` to return to pristine before starting the next one. Leave the worktree pristine (`git -C {wt} status --short` empty) when you finish.
 
